@@ -394,10 +394,10 @@ impl Monitor for C12 {
     }
     fn plan(&self, tier: &Tier, seed: u64) -> Vec<Chunk> {
         let (ng, ns) = match tier {
-            Tier::Quick => (15_000, 5_000),
-            Tier::Thorough => (60_000, 30_000),
+            Tier::Quick => (60_000, 20_000),
+            Tier::Thorough => (300_000, 100_000),
         };
-        let mut v = split_chunks("graph", seed_offset(seed, "C12g", 60_000), ng, 60_000, 200);
+        let mut v = split_chunks("graph", seed_offset(seed, "C12g", 300_000), ng, 300_000, 200);
         v.extend(split_chunks("recursive", seed_offset(seed, "C12r", 2_000), 400, 2_000, 50));
         v.extend(split_chunks("stress", seed_offset(seed, "C12s", 100_000), ns, 100_000, 100));
         v
